@@ -362,8 +362,11 @@ def finish(prop: str, tier: str, seed: int, level: str, stats: Stats, t0: float,
         "wall_s": round(time.time() - t0, 2),
         "violations": unlisted,
     }
-    os.makedirs(os.path.join(VERIF, "evidence"), exist_ok=True)
-    with open(os.path.join(VERIF, "evidence", f"{prop}.json"), "w") as f:
+    # evidence/<id>.json describes runs on /repo; a run against another tree (VERIF_REPO=<scratch worktree>, used when seeded changes
+    # are evaluated) writes next to the replays instead of overwriting it
+    edir = "evidence" if os.path.realpath(os.environ.get("VERIF_REPO") or "/repo") == os.path.realpath("/repo") else os.path.join("replays", "evidence-other-tree")
+    os.makedirs(os.path.join(VERIF, edir), exist_ok=True)
+    with open(os.path.join(VERIF, edir, f"{prop}.json"), "w") as f:
         json.dump(ev, f, indent=1, default=repr)
     print(f"[{prop}] tier={tier} seed={seed} executions={stats.executions} nontrivial={len(stats.nontrivial)} "
           f"observations={len(stats.observations)} skipped={stats.skipped} "
